@@ -5,6 +5,7 @@ cd "$(dirname "$0")"
 export PYKMIP_VERIF=1
 /venv/bin/python harness/gen_tables.py /repo
 /venv/bin/python harness/gen_schemas.py /repo
+/venv/bin/python harness/gen_crypto_tables.py /repo
 cd lean
 lake build 2>&1 | tail -5
 echo "setup done"
